@@ -332,3 +332,133 @@ example : ((joinReturns jrDemo "m").toOption.map fun s => s.H.map fun b => (b.na
 example : (exitsOf jrDemo.H "m").length > 1 ∧ (exitsOf jrDemo.H "m").Nodup := by decide +kernel
 
 end Scfg.C14
+
+/-! ## `insert_block` with any number of plain predecessors, pointwise
+
+Generalises `insertBlock_single`: for distinct predecessors that are plain blocks (no region, no
+value table) the whole call is described entry by entry — the new block is added with successors
+exactly `S`; every predecessor's successor tuple becomes `newTargets` (i.e. `rewire`, whose arcs
+`rewire_frame / rewire_rerouted / rewire_new_once / rewire_mem` describe); every other entry of the
+hierarchy, at any level, is unchanged. -/
+namespace Scfg.C14
+open Scfg Scfg.Model
+
+def updTo (f : Blk → Blk) (c : Name) (ps : List Name) (look : Name → Name → Option Blk) :
+    Name → Name → Option Blk :=
+  fun c' n' => match look c' n' with
+    | some b => if c' = c ∧ n' ∈ ps then some (f b) else some b
+    | none => none
+
+theorem insert_fold (c new : Name) (succs : List Name) :
+    ∀ (ps : List Name) (H H' : Hier),
+      ps.Nodup →
+      (∀ p ∈ ps, ∃ b, H.getIn? c p = some b ∧ b.isRegion = false ∧ b.kind.isBranching = false) →
+      ps.foldlM (fun H p => do
+        let (blk, H1) ← popIn "insert_block" H c p
+        let jt := blk.jts
+        let succs' := succs.filter fun s => !blk.bes.contains s
+        let H2 ← if succs.isEmpty then pure H1 else insertBlock.ren new blk H1 jt succs'
+        let jt' := if succs.isEmpty then jt ++ [new] else rewire new jt succs'
+        let blk' ← replaceJts blk jt'
+        pure (putIn H2 blk')) H = .ok H' →
+      ∀ c' n', H'.getIn? c' n' =
+        updTo (fun b => { b with jts := newTargets new succs b }) c ps (fun a b => H.getIn? a b) c' n' := by
+  intro ps
+  induction ps with
+  | nil =>
+    intro H H' _ _ h c' n'
+    simp only [List.foldlM_nil, pure, Except.pure, Except.ok.injEq] at h
+    subst h
+    simp only [updTo, List.not_mem_nil, and_false, if_false]
+    cases H.getIn? c' n' <;> rfl
+  | cons p ps ih =>
+    intro H H' hnd hall h c' n'
+    rw [List.nodup_cons] at hnd
+    obtain ⟨b, hb, hreg, hbr⟩ := hall p (by simp)
+    simp only [List.foldlM_cons, bind, Except.bind] at h
+    have hpop : popIn "insert_block" H c p = .ok (b, H.filter fun x => !(x.cont == c && x.name == p)) := by
+      simp [popIn, hb]
+    have hrep : ∀ jt', replaceJts b jt' = .ok { b with jts := jt' } := by
+      intro jt'; simp [replaceJts, hbr]
+    have hstep : (do
+        let (blk, H1) ← popIn "insert_block" H c p
+        let jt := blk.jts
+        let succs' := succs.filter fun s => !blk.bes.contains s
+        let H2 ← if succs.isEmpty then pure H1 else insertBlock.ren new blk H1 jt succs'
+        let jt' := if succs.isEmpty then jt ++ [new] else rewire new jt succs'
+        let blk' ← replaceJts blk jt'
+        pure (putIn H2 blk') : M Hier) =
+        .ok (putIn (H.filter fun x => !(x.cont == c && x.name == p)) { b with jts := newTargets new succs b }) := by
+      simp only [hpop, bind, Except.bind, pure, Except.pure]
+      by_cases he : succs.isEmpty = true
+      · simp [he, hrep, newTargets]
+      · have he' : succs.isEmpty = false := by simpa using he
+        simp only [he', Bool.false_eq_true, if_false, ren_plain new b hreg, hrep, newTargets]
+    simp only [bind, Except.bind] at hstep
+    rw [hstep] at h
+    simp only at h
+    have hbc : b.cont = c ∧ b.name = p := by
+      have := List.find?_some (show List.find? (fun x => x.cont == c && x.name == p) H = some b from hb)
+      simpa using this
+    have hlook1 : ∀ a m, Hier.getIn? (putIn (H.filter fun x => !(x.cont == c && x.name == p))
+        { b with jts := newTargets new succs b }) a m =
+        if a = c ∧ m = p then some { b with jts := newTargets new succs b } else H.getIn? a m := by
+      intro a m
+      rw [getIn?_putIn, getIn?_filter]
+      simp only [hbc.1, hbc.2]
+      split <;> rfl
+    have hall' : ∀ q ∈ ps, ∃ b', Hier.getIn? (putIn (H.filter fun x => !(x.cont == c && x.name == p))
+        { b with jts := newTargets new succs b }) c q = some b' ∧ b'.isRegion = false ∧
+        b'.kind.isBranching = false := by
+      intro q hq
+      obtain ⟨b', hb', h1, h2⟩ := hall q (by simp [hq])
+      refine ⟨b', ?_, h1, h2⟩
+      rw [hlook1]
+      have : q ≠ p := fun e => hnd.1 (e ▸ hq)
+      simp [this, hb']
+    rw [ih _ H' hnd.2 hall' h c' n']
+    simp only [updTo, hlook1]
+    by_cases hk : c' = c ∧ n' = p
+    · obtain ⟨rfl, rfl⟩ := hk
+      have : n' ∉ ps := hnd.1
+      simp [this, hb]
+    · simp only [hk, if_false]
+      cases hl : H.getIn? c' n' with
+      | none => rfl
+      | some x =>
+        simp only [List.mem_cons]
+        by_cases h1 : c' = c
+        · have h2 : n' ≠ p := fun e => hk ⟨h1, e⟩
+          simp [h1, h2]
+        · simp [h1]
+
+/-- **`insert_block`, whole call, plain predecessors, pointwise.** -/
+theorem insertBlock_plain_spec (H H' : Hier) (c : Name) (kind : BKind) (new : Name)
+    (preds succs : List Name) (hnd : preds.Nodup)
+    (hplain : ∀ p ∈ preds, p ≠ new ∧ ∃ b, H.getIn? c p = some b ∧ b.isRegion = false ∧
+      b.kind.isBranching = false)
+    (h : insertBlock H c kind new preds succs = .ok H') :
+    ∀ c' n', H'.getIn? c' n' =
+      updTo (fun b => { b with jts := newTargets new succs b }) c preds
+        (fun a b => (putIn H { cont := c, name := new, kind := kind, jts := succs }).getIn? a b) c' n' := by
+  unfold insertBlock at h
+  refine insert_fold c new succs preds _ H' hnd ?_ h
+  intro p hp
+  obtain ⟨hne, b, hb, h1, h2⟩ := hplain p hp
+  refine ⟨b, ?_, h1, h2⟩
+  rw [getIn?_putIn]
+  rw [if_neg (fun hh => hne hh.2)]
+  exact hb
+
+end Scfg.C14
+
+namespace Scfg.C14
+open Scfg Scfg.Model
+/-! Non-vacuity: two plain predecessors `a`, `b` with arcs into `S = [x, y]`. -/
+def ibDemo : Hier := [{ cont := "m", name := "a", jts := ["x", "q"] }, { cont := "m", name := "b", jts := ["y", "x"] },
+  { cont := "m", name := "x" }, { cont := "m", name := "y" }, { cont := "m", name := "q" }]
+example : ((insertBlock ibDemo "m" .synthTail "n" ["a", "b"] ["x", "y"]).toOption.map fun H =>
+    H.map fun e => (e.name, e.jts)) =
+    some [("x", []), ("y", []), ("q", []), ("n", ["x", "y"]), ("a", ["n", "q"]), ("b", ["n"])] := by
+  decide +kernel
+end Scfg.C14
